@@ -3,11 +3,11 @@ CONSTANTS
   MaxLen1 = 2
   MaxTotal2 = 2
   MaxP = 2
-  MinLens = {1, 2}
+  MinLens = {2}
   OccRates = {3}
   AllSentinelOrders = TRUE
   T = 2
 SPECIFICATION Spec
-INVARIANTS StrandSymmetry ExtensionLemma FwdInv BwdInv Final MemsFastLemma
+INVARIANTS StrandSymmetry ExtensionLemma EmptyStaysEmpty FwdInv BwdInv Final MemsFastLemma
 PROPERTY Progress
 CHECK_DEADLOCK FALSE
